@@ -165,6 +165,7 @@ var byID = map[int]reflect.Type{
 	82: reflect.TypeOf((chan *Big)(nil)),
 	83: reflect.TypeOf(map[string]*T0(nil)),
 	84: reflect.TypeOf((func() *T0)(nil)),
+	85: reflect.TypeOf((<-chan *T0)(nil)),
 }
 
 var (
@@ -291,6 +292,7 @@ var expected = func() []TypeInfo {
 	add(82, "other", -1, false)
 	add(83, "other", -1, false)
 	add(84, "other", -1, false)
+	add(85, "other", -1, false)
 	return e
 }()
 
